@@ -52,6 +52,17 @@ pub fn seed() -> u64 {
     env_u64("VERIF_SEED", 20260925)
 }
 
+/// Thorough runs are split over child processes (`HX_NSHARDS` of them, this
+/// one being `HX_SHARD`): the share of a workload of `n` items this process takes.
+pub fn shard_share(n: u64) -> u64 {
+    let k = env_u64("HX_NSHARDS", 1).max(1);
+    if k == 1 { n } else { ((n + k - 1) / k).max(1) }
+}
+
+pub fn shard_share_usize(n: usize) -> usize {
+    shard_share(n as u64) as usize
+}
+
 pub fn tier_is_thorough() -> bool {
     std::env::var("VERIF_TIER").map(|t| t == "thorough").unwrap_or(false)
 }
